@@ -1,6 +1,11 @@
 package main
 
-import "strings"
+import (
+	"fmt"
+	"strings"
+
+	"golang.org/x/tools/go/ssa"
+)
 
 func codecScope(pkg string) bool {
 	rel := strings.TrimPrefix(pkg, modPath+"/")
@@ -27,7 +32,7 @@ func init() {
 func init() {
 	register("C07", []string{"./frontend/...", "./backend/witness/..."}, func(p *Prog, r *Report) {
 		r.Engines = []string{"walk(WALK-ORDER,WALK-VIS,WALK-BALANCE)", "codec(CODEC-SEQ,CODEC-TYPESWITCH)", "effects(WIT-PURE)"}
-		r.Explanation = "Static analysis of the schema walk and of the witness object. Decided: (WALK-ORDER) every function of frontend and backend/witness that enumerates leaves with visibility-filtering handlers (parseCircuit, NewWitness, ToJSON / FromJSON helpers) runs the public-filtered walk before the secret-filtered walk, through the single walker schema.Walk; (WALK-VIS) in (*walker).StructField the parent/child visibility conflict test exists and is evaluated after the field's own public/secret option has been applied; (WALK-BALANCE) the reflection walk specialised to the schema walker keeps the walker's path stack balanced: the callbacks that push a frame (found from the code: StructField, SliceElem, ArrayElem) push exactly when they return nil, Exit pops exactly for the matching locations, and in every traversal function every path through a loop iteration and to every non-error return pushes and pops equally often (optional-interface assertions folded for the walker type), so the name and inherited visibility of a leaf never come from a stale frame; (CODEC-SEQ) the witness binary writer and reader handle (nbPublic, nbSecret, vector) in the same order; (CODEC-TYPESWITCH) every type switch over the witness vector handles the same set of vector types, so no supported field reaches a panic default; (WIT-PURE) read accessors of the witness (Public, Vector, WriteTo, MarshalBinary, ToJSON, ...) never write the witness object, so their result cannot depend on the call history. NOT decided: index order of the reflection walk, behaviour on arbitrary struct shapes, value conversion and modular reduction, JSON round-trip values."
+		r.Explanation = "Static analysis of the schema walk and of the witness object. Decided: (WALK-ORDER) every function of frontend and backend/witness that enumerates leaves with visibility-filtering handlers (parseCircuit, NewWitness, ToJSON / FromJSON helpers) runs the public-filtered walk before the secret-filtered walk, through the single walker schema.Walk; (WALK-VIS) in (*walker).StructField the parent/child visibility conflict test exists and is evaluated after the field's own public/secret option has been applied; (WALK-BALANCE) the reflection walk specialised to the schema walker keeps the walker's path stack balanced: the callbacks that push a frame (found from the code: StructField, SliceElem, ArrayElem) push exactly when they return nil, Exit pops exactly for the matching locations, and in every traversal function every path through a loop iteration and to every non-error return pushes and pops equally often (optional-interface assertions folded for the walker type), so the name and inherited visibility of a leaf never come from a stale frame; (WIT-GLOBAL) the functions of frontend and frontend/schema update no package-level state (no schema or leaf cache shared between circuit values); (CODEC-SEQ) the witness binary writer and reader handle (nbPublic, nbSecret, vector) in the same order; (CODEC-TYPESWITCH) every type switch over the witness vector handles the same set of vector types, so no supported field reaches a panic default; (WIT-PURE) read accessors of the witness (Public, Vector, WriteTo, MarshalBinary, ToJSON, ...) never write the witness object, so their result cannot depend on the call history. NOT decided: index order of the reflection walk, behaviour on arbitrary struct shapes, value conversion and modular reduction, JSON round-trip values."
 		r.RuleText = "one obligation per ordered-walk site, per type switch, per accessor; nontrivial = order / case set / purity established"
 		r.Assumptions = []string{"schema.Walk visits leaves in declaration order (reflectwalk), shared by compile and witness paths"}
 		RunWalkOrder(p, r)
@@ -35,6 +40,21 @@ func init() {
 		RunWalkBalance(p, r)
 		RunWitnessPure(p, r)
 		RunWitnessTypeSwitches(p, r)
+		if de, err := newDetEngine(p); err == nil {
+			// the schema / witness functions keep no package-level state (memo tables, caches): the binding of
+			// values to variables must not depend on what was bound before
+			scope := map[*ssa.Function]bool{}
+			for _, fn := range p.Funcs {
+				if pk := FuncPkg(fn); pk != nil {
+					rel := strings.TrimPrefix(pk.Path(), modPath+"/")
+					if rel == "frontend" || strings.HasPrefix(rel, "frontend/schema") {
+						scope[fn] = true
+					}
+				}
+			}
+			de.RunGlobals(r, "WIT-GLOBAL", scope)
+			r.Pass("WIT-GLOBAL", "-", "-", "scan", "-", fmt.Sprintf("%d functions of frontend and frontend/schema examined for package-level state", len(scope)), false)
+		}
 		RunCodecSeq(p, r, func(pkg string) bool { return pkg == modPath+"/backend/witness" })
 		r.RequireMin("WALK-ORDER", 4)
 		r.RequireMin("WALK-VIS", 1)
